@@ -1,5 +1,6 @@
 ----------------------------- MODULE FetcherScen -----------------------------
-(* Environment model for the items fetcher (pattern S): every script of exactly L steps         *)
+(* Environment model for the items fetcher (pattern S): every script of up to L steps            *)
+(* (those whose length is in EmitLens are emitted)                                               *)
 (*   announce(p, id)   peer p announces item id (peer B / item 2.. only after A / the smaller id *)
 (*                     were used: the peers and the items are symmetric)                         *)
 (*   suspend           toggles the answer of Suspend()                                           *)
@@ -9,7 +10,7 @@
 (* The harness spaces the steps by a few milliseconds and idles 6 arrive timeouts at the end.    *)
 EXTENDS Integers, Sequences, FiniteSets, TLC, Json
 
-CONSTANTS L, NIds, MaxWait
+CONSTANTS L, NIds, MaxWait, EmitLens
 VARIABLES script, ids, peers, waits
 svars == <<script, ids, peers, waits>>
 
@@ -26,5 +27,5 @@ Next == \/ \E p \in 1..Min(2, peers + 1), id \in 1..Min(NIds, ids + 1) :
         \/ /\ script # <<>> /\ waits < MaxWait
            /\ Step([op |-> "wait", p |-> "", id |-> 0]) /\ waits' = waits + 1 /\ UNCHANGED <<ids, peers>>
 Spec == Init /\ [][Next]_svars
-EmitScen == (Len(script) = L /\ ids > 0) => PrintT(<<"EDGE", ToJson([script |-> script])>>)
+EmitScen == (Len(script) \in EmitLens /\ ids > 0) => PrintT(<<"EDGE", ToJson([script |-> script])>>)
 =============================================================================
